@@ -34,6 +34,11 @@ def cfgs():
     add("T13-cauth", srv_rsa, cli_rsa_id, "ver=T13 cb=strict", "ver=T13", fam="T13")
     add("T13-early-accepted", srv_rsa, cli_rsa, "ver=T13 early=16384", "ver=T13 sid=R", resume=True, fam="T13", early=True)
     add("T13-early-rejected", srv_rsa + " psk13=1 early=16384", cli_rsa + " psk13=1 early=16384", "ver=T13 early=16384", "ver=T13", fam="T13", early=True)
+    # the client offers an external PSK the server does not have: the server declines it and authenticates with its certificate
+    add("T13-psk-declined", srv_rsa, cli_rsa + " psk13=1", "ver=T13", "ver=T13", fam="T13")
+    # the client's only key share is for a group the server does not support: HelloRetryRequest, second ClientHello
+    add("T13-hrr", srv_rsa, cli_rsa, "ver=T13 groups=24", "ver=T13 groups=23,24 shares=1", fam="T13")
+    add("T13-hrr-early-resumed", srv_rsa, cli_rsa, "ver=T13 early=16384 groups=24", "ver=T13 sid=R groups=23,24 shares=1", resume=True, fam="T13", early=True)
     add("T13cap-neg12", srv_rsa, cli_rsa, "ver=T12", "ver=T11,T12,T13", fam="L")
     add("srv13cap-neg12", srv_rsa, cli_rsa, "ver=T11,T12,T13", "ver=T12 suites=0xc02f", fam="L")
     add("D12-ecdhe-rsa-gcm", srv_rsa, cli_rsa, "ver=D12", "ver=D12 suites=0xc02f")
@@ -91,6 +96,10 @@ def actions(tier):
         A.append(("hs-swap%d%d" % (i, i + 1), ["hsedit {X} swap %d %d" % (i, i + 1)]))
     A.append(("hs-swap02", ["hsedit {X} swap 0 2"]))
     A.append(("hs-split", ["hsedit {X} split 0"]))
+    # another client (no PSK, a share the server accepts) takes the place of the one that started the handshake - e.g. answers
+    # the HelloRetryRequest in its stead - and then sends application data protected under whatever the server reads with
+    A.append(("takeover-nopsk", ["new c1 client keys=kc ver=T13 groups=24", "link c1 s0", "flush c1", "deliver c1 1", "forge c1 0 23 16", "deliver c1 1",
+                                 "forge c1 0 23 9", "deliver c1 1"]))
     A.append(("none", []))
     return A
 
@@ -140,7 +149,8 @@ def generate(tier, seed, only_cfg=None, max_k=16):
                 acts = A
                 if tier == "quick":
                     # representative subset per (cfg, k, target): all classes at a few stop points, sampled elsewhere
-                    acts = [a for a in A if rnd.random() < 0.12 or a[0] in ("plain-app", "forge-app", "none")]
+                    acts = [a for a in A if rnd.random() < 0.12 or a[0] in ("plain-app", "forge-app", "none", "takeover-nopsk")]
+                acts = [a for a in acts if a[0] != "takeover-nopsk" or (cfg["fam"] == "T13" and target == "s0" and k <= 4)]
                 for act in acts:
                     cont = CONTS[rnd.randrange(len(CONTS))] if tier == "quick" else None
                     for c in ([cont] if cont else CONTS):
